@@ -70,7 +70,36 @@ fn program_for(c: &Case) -> (Built, Vec<u8>) {
 }
 
 fn commands_for(c: &Case, p: &Prog) -> (Vec<Cmd>, Vec<u8>) {
-    let (mut cmds, aliases) = commands_for_raw(c, p);
+    let (raw_cmds, raw_aliases) = commands_for_raw(c, p);
+    // expand the aliasing scenario: a breakpoint in the code plus one a power-of-two multiple of
+    // 64 words away (anywhere in user space); the far one is removed again (or the near one is
+    // removed and re-added); the breakpoint in the code must keep working
+    let mut cmds: Vec<Cmd> = Vec::new();
+    let mut aliases: Vec<u8> = Vec::new();
+    for (cmd, al) in raw_cmds.into_iter().zip(raw_aliases) {
+        if let Cmd::Echo(t) = &cmd {
+            if let Some(rest) = t.strip_prefix("ALIAS ") {
+                let v: Vec<i64> = rest.split(' ').filter_map(|x| x.parse().ok()).collect();
+                let (a, b, cc) = (v[0] as u16, v[1] as u16, v[2]);
+                let n = p.img.words.len().max(1);
+                let base = p.orig.wrapping_add(((b as usize % 7) * n / 7) as u16);
+                let far = base.wrapping_add(64u16.wrapping_mul(1 << (a % 6)));
+                let abs = |x: u16| crate::refdbg::Loc::Abs(x, 0);
+                let seq: Vec<Cmd> = match cc.rem_euclid(3) {
+                    0 => vec![Cmd::BreakAdd(abs(base)), Cmd::BreakAdd(abs(far)), Cmd::BreakRemove(abs(far)), Cmd::Continue],
+                    1 => vec![Cmd::BreakAdd(abs(far)), Cmd::BreakAdd(abs(base)), Cmd::BreakRemove(abs(far)), Cmd::Continue, Cmd::Continue],
+                    _ => vec![Cmd::BreakAdd(abs(base)), Cmd::BreakAdd(abs(far)), Cmd::BreakRemove(abs(base)), Cmd::BreakAdd(abs(base)), Cmd::BreakRemove(abs(far)), Cmd::Continue],
+                };
+                for s in seq {
+                    cmds.push(s);
+                    aliases.push(0);
+                }
+                continue;
+            }
+        }
+        cmds.push(cmd);
+        aliases.push(al);
+    }
     // `step out` right after the PC was moved by hand is outside C10/C11's statements (which
     // instruction "the" return is judged on is unspecified there): make it a single step
     // (lace judges it on the instruction that was at the PC before the move)
@@ -93,7 +122,12 @@ fn commands_for_raw(c: &Case, p: &Prog) -> (Vec<Cmd>, Vec<u8>) {
     match c {
         Case::Generated { cmds, .. } => (
             cmds.iter()
-                .map(|r| match r.kind % 24 {
+                .map(|r| match r.kind % 28 {
+                    // "aliasing" breakpoints: a second breakpoint a power-of-two multiple of 128
+                    // words away from a code address (anywhere in user space), added and removed
+                    // again; the one in the code must keep working
+                    24 | 25 | 26 => Cmd::Echo(format!("ALIAS {} {} {}", r.a, r.b, r.c)), // expanded below
+                    27 => Cmd::Continue,
                     // moving the PC while paused: the breakpoint must still fire when control
                     // comes back to it
                     20 | 21 => Cmd::Goto(make_loc(p, r.a, r.b, r.c, LocMode::Code)),
@@ -141,7 +175,7 @@ pub fn judge_case(c: &Case) -> Obs {
     let (mut cmds, aliases) = commands_for(c, &p);
     cmds.push(Cmd::BreakList);
     cmds.push(Cmd::Exit);
-    let model = run_model(&p, &cmds, &input, MODEL_BUDGET);
+    let mut model = run_model(&p, &cmds, &input, MODEL_BUDGET);
     if let Some(why) = model.ambiguous {
         obs.ambiguous = why.starts_with("step over");
         if !obs.ambiguous {
@@ -224,8 +258,16 @@ pub fn judge_case(c: &Case) -> Obs {
             return obs;
         }
     }
-    if !compare_states(&mut obs, "C11", &model, &cmds, out, &shown) {
-        return obs;
+    {
+        let mut o = Obs::default();
+        if !compare_states(&mut o, "C11", &model, &cmds, out, &shown) {
+            // a step over a call with two readings as last command: try the other reading
+            let mut o2 = Obs::default();
+            if !(model.use_alternative() && compare_states(&mut o2, "C11", &model, &cmds, out, &shown)) {
+                obs.fail = o.fail;
+                return obs;
+            }
+        }
     }
     // break lists
     let err = String::from_utf8_lossy(&out.stderr).to_string();
@@ -289,7 +331,7 @@ impl Prop for C11 {
         "C11"
     }
     fn rule(&self) -> &'static str {
-        "ProgGen programs with `.break` directives sprinkled by the generator plus 0-3 extra placements at any line position (before the first statement / .orig, between any two, after the last, doubled, on a labelled line), at default and non-default origins x histories of 1-13 commands over every resuming command, break add/remove (absolute, label+-offset, ^offset; extra weight on removing predefined ones), break list, and the commands that move the PC while paused (goto, reset); plus the one-instruction loop `F call F` with a breakpoint on it. \
+        "ProgGen programs with `.break` directives sprinkled by the generator plus 0-3 extra placements at any line position (before the first statement / .orig, between any two, after the last, doubled, on a labelled line), at default and non-default origins x histories of 1-13 commands over every resuming command, break add/remove (absolute, label+-offset, ^offset; extra weight on removing predefined ones), break list, the commands that move the PC while paused (goto, reset), and aliasing scenarios (a second breakpoint 64*2^k words away from one in the code, added and removed again); plus the one-instruction loop `F call F` with a breakpoint on it. \
          Oracle: RefDbg — pause before the marked instruction, resuming executes it once, it fires again on the next arrival (also when that is the very next instruction), removed breakpoints never pause: registers/PC/CC after every command, full final snapshot, executed-instruction count; `.break` occupies no memory (image equals the encoding without it) and marks the next statement (addresses recorded by the assembler); every `break list` equals the model's sorted duplicate-free list. \
          Non-trivial: a breakpoint is hit at least twice in the session, or a predefined breakpoint is removed and execution continues. Distinct = hash(source, script, input)."
     }
